@@ -417,7 +417,7 @@ impl<'a> World<'a> {
         }
         // every peer got the two bytes its accepted stream wrote
         for i in 0..self.conns.len() {
-            let got = peer::wait_for(rt::SETTLE_LIMIT, || peer::recv_nb(&self.conns[i].sock, 16).ok().flatten());
+            let got = peer::wait_for(rt::settle_limit(), || peer::recv_nb(&self.conns[i].sock, 16).ok().flatten());
             if got.as_deref() != Some(&[0xA1, 0xA2][..]) {
                 self.viol("stream-content", "final", format!("peer #{i} received {got:02x?} from its accepted stream, expected [a1, a2]"));
                 return;
